@@ -112,6 +112,9 @@ def run_property(pid, tier, fdir=None, th=None, extract_s=0.0, quiet=False):
     rep = Report(pid, tier)
     mod = importlib.import_module(pid.lower())
     mod.run(ctx, rep)
+    if tier == 'thorough':
+        import selftest
+        selftest.run(rep)
     known, _ = load_known()
     new, hit = [], []
     for v in rep.violations:
